@@ -72,6 +72,13 @@ Definition ds_update (s : ds) (x : Qc) : ds :=
 
 Definition ds_run (l : list Qc) : ds := fold_left ds_update l ds_default.
 
+(** A history may contain persist/restore steps (the summary is serialised, deserialised and
+    the history continues on the restored value): the model treats them as no-ops. *)
+Inductive dop := DUpd (x : Qc) | DPersist.
+Definition ds_step (s : ds) (o : dop) : ds := match o with DUpd x => ds_update s x | DPersist => s end.
+Definition dvals (ops : list dop) : list Qc :=
+  flat_map (fun o => match o with DUpd x => [x] | DPersist => [] end) ops.
+
 (* ---- the specification: statistics of the whole dataset at once --------------------------- *)
 
 Definition nQc (n : nat) : Qc := Q2Qc (inject_Z (Z.of_nat n)).
